@@ -7,9 +7,12 @@ Facts emitted (booleans only):
 
   * upload_relative_fixed -- which of the two KNOWN forms the destination of a child has inside
     `async for path in self.path_io.list(src)` of Client.upload:
+        true:   relative = destination / path.relative_to(source)
+                (since "fix: Client.upload places a directory's children under the destination")
         false:  if write_into: relative = destination.name / path.relative_to(source)
-                else:          relative = path.relative_to(source.parent)            (finding F1)
-        true:   relative = destination / path.relative_to(source)                   (docs/fixes/C09-upload-destination.diff)
+                else:          relative = path.relative_to(source.parent)
+                (the code before that fix, former finding F1: C09_source_obligations is then false and
+                 C09_upload_spec does not typecheck -- a revert is detected)
     Any other computation of `relative` is Unclassified.  The model (Model/ClientTree.v upload_gen) takes
     this boolean as its parameter; Extract/ExC09.v and Props/C09.v instantiate it with this fact.
   * upload_final_destination_ok -- `if not write_into: destination = destination / source.name` is the
@@ -162,8 +165,8 @@ def generate(src_dir):
     b = emit.boolean
     return emit.HEADER.format(src=str(path)) + f"""
 (* Client.upload: the destination of a child inside `async for path in self.path_io.list(src)`
-   false = `destination.name / path.relative_to(source)` | `path.relative_to(source.parent)`  (finding F1)
-   true  = `destination / path.relative_to(source)`                                       (the fix) *)
+   true  = `destination / path.relative_to(source)`
+   false = `destination.name / path.relative_to(source)` | `path.relative_to(source.parent)`  (pre-fix, former F1) *)
 Definition upload_relative_fixed : bool := {b(fixed)}.
 Definition upload_final_destination_ok : bool := {b(up_dst)}.
 Definition upload_children_use_relative : bool := {b(uses)}.
